@@ -1,6 +1,147 @@
-import LinfaSpec.Model.Logistic
-import LinfaSpec.Model.Glm
+import LinfaSpec.Proofs.Logistic
 
+/-!
+# C12 — logistic regression and Tweedie GLM: coding, probabilities, gradients
+
+Theorems about `LinfaSpec.Logistic` / `LinfaSpec.Glm` (the models of `linfa-logistic` and of the
+Tweedie GLM of `linfa-linear`).  L-BFGS is not modelled; that the returned point is stationary is
+checked by the oracle of the correspondence run, with the gradient these theorems speak about.
+-/
 namespace LinfaSpec.Props.C12
+open LinfaSpec LinfaSpec.Logistic
+
+/-! ## label coding -/
+
+section Labels
+variable {C : Type} [DecidableEq C]
+
+/-- **`label_classes` codes with ±1**: when it succeeds the two reported classes are distinct,
+every label is one of them, and sample `i` gets `+1` exactly when its label is the positive class
+(else `-1`). -/
+theorem labels_pm_one {α} [Ring α] (y : List C) (r : BinLabels C α)
+    (h : labelClasses y = .ok r) :
+    r.pos ≠ r.neg ∧ (∀ x ∈ y, x = r.pos ∨ x = r.neg) ∧
+      r.target = y.map (fun x => if x = r.pos then (1 : α) else -1) := by
+  unfold labelClasses at h
+  cases hs : binScan (none, none) y with
+  | none => simp [hs] at h
+  | some st =>
+    have hinv := binScan_inv y [] (none, none) st hs (by simp [ScanInv])
+    simp only [List.nil_append] at hinv
+    obtain ⟨s1, s2⟩ := st
+    cases s1 with
+    | none => cases s2 <;> simp [hs] at h
+    | some a =>
+      obtain ⟨a, na⟩ := a
+      cases s2 with
+      | none => simp [hs] at h
+      | some b =>
+        obtain ⟨b, nb⟩ := b
+        simp only [ScanInv] at hinv
+        obtain ⟨hab, -, -, -, -, hmem⟩ := hinv
+        simp only [hs] at h
+        by_cases hlt : na < nb
+        · simp only [hlt, if_true, Except.ok.injEq] at h
+          subst h
+          refine ⟨fun e => hab e.symm, fun x hx => (hmem x hx).symm, ?_⟩
+          simp only [List.map_map]
+          apply List.map_congr_left
+          intro x hx
+          rcases hmem x hx with e | e
+          · subst e; simp [hab]
+          · subst e
+            have : ¬ (x = a) := fun e => hab e.symm
+            simp [this]
+        · simp only [hlt, if_false, Except.ok.injEq] at h
+          subst h
+          exact ⟨hab, hmem, rfl⟩
+
+/-- **the more frequent class is the positive one** (ties: the class seen first); both occur. -/
+theorem larger_class_positive {α} [Ring α] (y : List C) (r : BinLabels C α)
+    (h : labelClasses y = .ok r) :
+    y.count r.neg ≤ y.count r.pos ∧ 0 < y.count r.neg := by
+  unfold labelClasses at h
+  cases hs : binScan (none, none) y with
+  | none => simp [hs] at h
+  | some st =>
+    have hinv := binScan_inv y [] (none, none) st hs (by simp [ScanInv])
+    simp only [List.nil_append] at hinv
+    obtain ⟨s1, s2⟩ := st
+    cases s1 with
+    | none => cases s2 <;> simp [hs] at h
+    | some a =>
+      obtain ⟨a, na⟩ := a
+      cases s2 with
+      | none => simp [hs] at h
+      | some b =>
+        obtain ⟨b, nb⟩ := b
+        simp only [ScanInv] at hinv
+        obtain ⟨-, h1, h2, h3, h4, -⟩ := hinv
+        simp only [hs] at h
+        by_cases hlt : na < nb
+        · simp only [hlt, if_true, Except.ok.injEq] at h
+          subst h
+          simp only
+          omega
+        · simp only [hlt, if_false, Except.ok.injEq] at h
+          subst h
+          simp only
+          omega
+
+/-- `label_classes` fails exactly on label vectors without two, or with more than two, distinct
+values: success means exactly the two reported classes occur. -/
+example : (labelClasses (α := Int) [3, 5, 5, 3, 5]).toOption.map (fun r => (r.pos, r.neg, r.target)) =
+    some (5, 3, [-1, 1, 1, -1, 1]) := by decide
+example : (labelClasses (α := Int) [3, 5, 3]).toOption.map (fun r => (r.pos, r.neg, r.target)) =
+    some (3, 5, [1, -1, 1]) := by decide
+example : ((labelClasses (α := Int) [3, 5, 7]).toOption.map (·.pos)) = none := by decide
+example : ((labelClasses (α := Int) [3, 3]).toOption.map (·.pos)) = none := by decide
+
+end Labels
+
+section Multi
+variable {C : Type} [LinearOrder C]
+
+/-- **`label_classes_multi` reports the sorted set of classes**: strictly increasing (so without
+repetition) and containing exactly the labels that occur. -/
+theorem classes_sorted_dedup (y : List C) :
+    (classesOf y).Pairwise (· < ·) ∧ ∀ x, x ∈ classesOf y ↔ x ∈ y :=
+  ⟨classesOf_pairwise y, mem_classesOf y⟩
+
+/-- **one-hot rows**: the row of a sample with label `c` has one entry per class, entry `j` is `1`
+exactly when class `j` is `c` and `0` otherwise — exactly one `1`, at the rank of `c`. -/
+theorem onehot_row {α} [Zero α] [One α] (y : List C) (c : C) (hc : c ∈ y) :
+    (onehotRow (α := α) (classesOf y) c).length = (classesOf y).length ∧
+    (classesOf y).idxOf c < (classesOf y).length ∧
+    ∀ j (hj : j < (classesOf y).length),
+      (onehotRow (α := α) (classesOf y) c)[j]? = some (if (classesOf y)[j] = c then 1 else 0) ∧
+      ((classesOf y)[j] = c ↔ j = (classesOf y).idxOf c) := by
+  have hmem : c ∈ classesOf y := (mem_classesOf y c).mpr hc
+  have hnd : (classesOf y).Nodup := (classesOf_pairwise y).imp (fun h => ne_of_lt h)
+  have hidx : (classesOf y).idxOf c < (classesOf y).length := List.idxOf_lt_length_of_mem hmem
+  refine ⟨by simp [onehotRow], hidx, ?_⟩
+  intro j hj
+  have hiff : (classesOf y)[j] = c ↔ j = (classesOf y).idxOf c := by
+    constructor
+    · intro h
+      rw [← h, List.Nodup.idxOf_getElem hnd]
+    · intro h
+      subst h
+      exact List.getElem_idxOf hidx
+  refine ⟨?_, hiff⟩
+  unfold onehotRow
+  rw [List.getElem?_set]
+  by_cases hji : (classesOf y).idxOf c = j
+  · have : (classesOf y)[j] = c := hiff.mpr hji.symm
+    simp [hji, hj, this]
+  · have : ¬ (classesOf y)[j] = c := fun h => hji (hiff.mp h).symm
+    simp [hji, hj, this]
+
+example : (classesOf [3, 1, 3, 2, 1]).Pairwise (· < ·) ∧ 2 ∈ classesOf [3, 1, 3, 2, 1] :=
+  ⟨(classes_sorted_dedup _).1, ((classes_sorted_dedup _).2 2).mpr (by decide)⟩
+example : (onehotRow (α := Int) (classesOf [3, 1, 3]) 3).length = (classesOf [3, 1, 3]).length :=
+  (onehot_row [3, 1, 3] 3 (by decide)).1
+
+end Multi
 
 end LinfaSpec.Props.C12
